@@ -66,7 +66,8 @@ def main():
                 continue
             with open(meta_p) as f:
                 meta = json.load(f)
-            prop = meta['property']
+            import re
+            prop = re.match(r'C\d+', meta['property']).group(0)
             if args.id and sid != args.id:
                 continue
             if args.prop and prop != args.prop:
